@@ -7,6 +7,7 @@ RULE = ('PDS sets for the packaged configuration (carriers 48, 62, 123, 124, 125
         'carrier length in 985..1005 (boundary sweep), zero-length values, values made of digits that look like tag/length headers, '
         'sets needing 1..5 carriers incl. five carriers filled to exactly 999, sets needing 6 (must be refused); random sets; '
         'carriers read back with an independent frame reader; non-trivial = distinct set with at least 2 sub-elements')
+CODEC_ALIASES = True     # one implementation run in three is given an alias spelling of the codec name (worker.for_impl)
 EXHAUSTIVE = {'quick': False, 'thorough': True}
 ASSUMPTIONS = ['values of 993+ characters and more chunks than carriers are outside the stated domain (refused)']
 CARRIERS = [48, 62, 123, 124, 125]
